@@ -62,6 +62,19 @@ func (r *c08Ref) del(k []byte) bool {
 	return false
 }
 
+// c08ZOrder: the members of the reference zset (value byte = score + 2) in (score, member) order.
+func c08ZOrder(r *c08Ref) [][]byte {
+	var out [][]byte
+	for sc := 0; sc < 8; sc++ {
+		for i := range r.es { // r.es is sorted by member
+			if int(r.es[i].v[0]) == sc {
+				out = append(out, r.es[i].k)
+			}
+		}
+	}
+	return out
+}
+
 func c08Name(tag string) []byte { return vsym.Bytes(tag, vsym.Choose(tag+".len", 2)) }
 
 func c08Pre(n int) [][]byte {
@@ -217,7 +230,55 @@ func Verif_C08_ZSet() {
 		ref.set(m, []byte{byte(sc + 1)})
 	}
 	ts := c08T0 + 1
-	switch vsym.Choose("cmd", 3) {
+	switch vsym.Choose("cmd", 5) {
+	case 3:
+		// ZREMRANGEBYRANK with in-range, out-of-range and negative indexes
+		start, stop := vsym.Choose("start", 5)-2, vsym.Choose("stop", 6)-2
+		n, err := db.ZRemRangeByRank(ts, c08Key, start, stop)
+		order := c08ZOrder(ref)
+		l := len(order)
+		s, e := start, stop
+		if s < 0 {
+			s += l
+		}
+		if e < 0 {
+			e += l
+		}
+		if s < 0 {
+			s = 0
+		}
+		if e >= l {
+			e = l - 1
+		}
+		want := 0
+		if s <= e && s < l {
+			want = e - s + 1
+			var victims [][]byte
+			for i := s; i <= e; i++ {
+				victims = append(victims, order[i])
+			}
+			for _, k := range victims {
+				ref.del(k)
+			}
+		}
+		vsym.Assert(err == nil && n == int64(want), "ZREMRANGEBYRANK replies the number of members in the (clamped) rank range and removes exactly those")
+	case 4:
+		// ZREMRANGEBYSCORE over the score domain {-1,0,1}
+		lo, hi := vsym.Choose("min", 4)-2, vsym.Choose("max", 4)-2
+		n, err := db.ZRemRangeByScore(ts, c08Key, float64(lo), float64(hi))
+		want := 0
+		var victims [][]byte
+		for i := range ref.es {
+			sc := int(ref.es[i].v[0]) - 2
+			if sc >= lo && sc <= hi {
+				victims = append(victims, ref.es[i].k)
+			}
+		}
+		for _, k := range victims {
+			ref.del(k)
+			want++
+		}
+		vsym.Assert(err == nil && n == int64(want), "ZREMRANGEBYSCORE replies the number of members in the score range and removes exactly those")
 	case 0:
 		m1, m2 := c08Name("m1"), c08Name("m2")
 		s1, s2 := vsym.Choose("s1", 3), vsym.Choose("s2", 3)
